@@ -228,9 +228,10 @@ def run(ck):
     ck.ob("R2", "CGen.CODE_EXCEPTION_MEM_AT_INSTR:exit", ok, CG, "the C fault branch must set PC, BlockDst->address and return JIT_RET_EXCEPTION")
     fn = cg.func("CGen.gen_check_memory_exception")
     res = [n for n in walk_body(fn) if isinstance(n, ast.BinOp) and isinstance(n.op, ast.Mod) and "CODE_EXCEPTION_MEM_AT_INSTR" in norm(n.left)]
-    ok = bool(res) and isinstance(res[0].right, ast.Tuple) and norm(res[0].right.elts[0]) == "self.C_PC" and \
-        all(norm(e) == "dst" for e in res[0].right.elts[1:]) and any(
-            isinstance(n, ast.Assign) and norm(n.targets[0]) == "dst" and norm(n.value) == "self.dst_to_c(%s)" % fn.args.args[1].arg for n in walk_body(fn))
+    from sa.astutil import Resolver as _Rs
+    _rs = _Rs(fn)
+    ok = bool(res) and isinstance(res[0].right, ast.Tuple) and norm(res[0].right.elts[0]) == "self.C_PC" and len(res[0].right.elts) >= 2 and \
+        all(norm(_rs.expand_node(e)) == "self.dst_to_c(%s)" % fn.args.args[1].arg for e in res[0].right.elts[1:])
     ck.ob("R2", "CGen.gen_check_memory_exception:pc-value", ok, cg.where(fn), "PC is not set to the address handed to the fault check")
     fn = cg.func("CGen.gen_c_code")
     calls = [c for c in walk_body(fn) if isinstance(c, ast.Call) and dotted(c.func) in ("self.gen_check_memory_exception", "self.gen_check_cpu_exception")]
@@ -248,20 +249,79 @@ def run(ck):
     calls = [c for c in walk_body(fn) if isinstance(c, ast.Call) and dotted(c.func) in ("self.check_memory_exception", "self.check_cpu_exception")]
     ok = bool(calls) and all(c.args and norm(c.args[0]) == "instr.offset" for c in calls)
     ck.ob("R2", "LLVMFunction.gen_irblock:fault-address", ok, ll.where(fn), "in-instruction fault checks must report the instruction's own offset")
-    fn = jp.func("JitCore_Python.add_block.myfunc")
+    from sa.prenorm import normalise_function
+    from sa.astutil import Resolver as _Res
+    from sa.pathob import undischarged as _und, path_text as _pt
+    fn = normalise_function(jp.func("JitCore_Python.add_block.myfunc"))
+    outer = jp.func("JitCore_Python.add_block")
+    res_in, res_out = _Res(fn), _Res(outer)
+
+    def _expand2(e):
+        """locals of myfunc, then names captured from the enclosing add_block"""
+        e = res_in.expand_node(e)
+        return res_out.expand_node(e)
+
+    def _mask_parts(e):
+        e = _expand2(e)
+        parts = []
+
+        def flat(n):
+            if isinstance(n, ast.BinOp) and isinstance(n.op, ast.BitAnd):
+                flat(n.left)
+                flat(n.right)
+            else:
+                parts.append(norm(n).replace("csts.", "").replace("m2_csts.", "").replace(" ", ""))
+        flat(e)
+        return sorted(parts)
     cfg = CFG(fn)
-    ok = True
+    py_mask_ok = False
     n_t = 0
+    ok = True
     for nd in cfg.nodes:
-        if nd.kind == "test" and ("vmmngr.get_exception() & flag" in norm(nd.ast) or "EXCEPT_NUM_UPDT_EIP" in norm(nd.ast)):
-            n_t += 1
-            ts = [s for (s, l) in cfg.succ[nd.id] if l is True]
-            a = cfg.nodes[ts[0]] if ts else None
-            nxt = [cfg.nodes[s] for (s, _l) in cfg.succ[a.id]] if a is not None else []
-            if not (a is not None and norm(a.ast) == "update_pc(instr.offset)" and nxt and norm(nxt[0].ast) == "return instr.offset"):
-                ok = False
+        if nd.kind != "test":
+            continue
+        t = _expand2(nd.ast)
+        txt = norm(t)
+        is_mem = "vmmngr.get_exception()" in txt and isinstance(t, (ast.BinOp, ast.Compare))
+        is_cpu = "EXCEPT_NUM_UPDT_EIP" in txt
+        if not (is_mem or is_cpu):
+            continue
+        if is_mem:
+            core = t
+            if isinstance(core, ast.Compare) and len(core.ops) == 1 and isinstance(core.ops[0], ast.NotEq) and norm(core.comparators[0]) == "0":
+                core = core.left
+            parts = _mask_parts(core)
+            parts = sorted("vmmngr.get_exception()" if x.endswith("vmmngr.get_exception()") else x for x in parts)
+            if parts == sorted(["vmmngr.get_exception()", "~EXCEPT_CODE_AUTOMOD", "EXCEPT_DO_NOT_UPDATE_PC"]):
+                py_mask_ok = True
+            else:
+                continue
+        n_t += 1
+        # every path from the fault branch to the exit sets PC to the instruction's offset, and the value returned is that offset
+        def sets_pc(n2):
+            return any(dotted(c.func) == "update_pc" and c.args and norm(_expand2(c.args[0])) == "instr.offset" for c in node_calls(n2))
+        p = _und(cfg, sets_pc, start=(nd.id, True), targets=[cfg.exit.id])
+        if p is not None:
+            ok = False
+        rets_ok = True
+        seen, stack = set(), [s_ for (s_, l_) in cfg.succ[nd.id] if l_ is True]
+        while stack:
+            x = stack.pop()
+            if x in seen:
+                continue
+            seen.add(x)
+            n2 = cfg.nodes[x]
+            if n2.kind == "stmt" and isinstance(n2.ast, ast.Return):
+                if n2.ast.value is None or norm(_expand2(n2.ast.value)) != "instr.offset":
+                    rets_ok = False
+                continue
+            if n2.kind in ("for", "loop"):
+                continue
+            stack.extend(s_ for (s_, _l) in cfg.succ[x])
+        ok = ok and rets_ok
     ck.ob("R2", "JitCore_Python.myfunc:fault-exit", ok and n_t >= 2, jp.where(fn),
           "the Python fault branches must set PC to instr.offset and return it")
+    _py_mask_ok = py_mask_ok
 
     # --------------------------------------------------------------- R3 mask and constants
     want = "(VM_exception_flag & ~EXCEPT_CODE_AUTOMOD) & EXCEPT_DO_NOT_UPDATE_PC"
@@ -275,9 +335,7 @@ def run(ck):
              for n in walk_body(fn)) and any(isinstance(c, ast.Call) and dotted(c.func) == "builder.and_" for c in walk_body(fn))
     ck.ob("R3", "LLVM:restricted-mask", ok, ll.where(fn), "LLVM restricted mask is not ~EXCEPT_CODE_AUTOMOD & EXCEPT_DO_NOT_UPDATE_PC")
     fn = jp.func("JitCore_Python.add_block.myfunc")
-    ok = any(isinstance(n, ast.Assign) and norm(n.targets[0]) == "flag" and
-             norm(n.value).replace("csts.", "") in ("~EXCEPT_CODE_AUTOMOD & EXCEPT_DO_NOT_UPDATE_PC", "EXCEPT_DO_NOT_UPDATE_PC & ~EXCEPT_CODE_AUTOMOD")
-             for n in walk_body(fn))
+    ok = _py_mask_ok
     ck.ob("R3", "Python:restricted-mask", ok, jp.where(fn), "Python restricted mask is not ~EXCEPT_CODE_AUTOMOD & EXCEPT_DO_NOT_UPDATE_PC")
     pc = py_constants(ck.repo)
     cc = c_constants(ck.repo)
